@@ -142,7 +142,35 @@ func execBody(a []string) string {
 		tx.ProcessResponseBody()
 		rd, _ = tx.ResponseBodyReader()
 	}
-	content, rerr := io.ReadAll(rd)
+	// read back the way connectors do: sometimes in one go, sometimes a prefix through Read and the rest through
+	// io.Copy (which uses the reader's WriteTo / the writer's ReadFrom when there is one), sometimes byte-sized reads
+	var content []byte
+	var rerr error
+	switch (limit + mem + len(a[4])) % 3 {
+	case 0:
+		content, rerr = io.ReadAll(rd)
+	case 1:
+		pre := make([]byte, 1+(limit+len(a[4]))%7)
+		n, e := io.ReadFull(rd, pre)
+		content = append(content, pre[:n]...)
+		if e == nil {
+			var rest bytes.Buffer
+			_, rerr = io.Copy(&rest, rd)
+			content = append(content, rest.Bytes()...)
+		}
+	default:
+		one := make([]byte, 1)
+		for {
+			n, e := rd.Read(one)
+			content = append(content, one[:n]...)
+			if e != nil {
+				if e != io.EOF {
+					rerr = e
+				}
+				break
+			}
+		}
+	}
 	if rerr != nil {
 		return "READERR"
 	}
